@@ -22,3 +22,18 @@ func sharedAtomicity(c *engine.Ctx) {
 	c02runTx(c, p)
 	c02cache(c, p)
 }
+
+// C24 (hashes depend only on history) shares C23's parallel-array rules: the
+// childHashes / valueHashes arrays are members of the slot-parallel groups, and
+// a hash moved to the wrong slot (or not moved with its child) is persisted and
+// feeds the root hash. An independently seeded C24 change (copy() of
+// childHashes with the separator-key bounds) is caught by exactly these rules.
+func init() {
+	extend("C24", func(c *engine.Ctx) {
+		p := progWith(c, "tm2/pkg/bptree")
+		if p == nil {
+			return
+		}
+		c23Parallel(c, p)
+	})
+}
